@@ -92,3 +92,20 @@ def alt_env_sig(m):
     return s
 
 
+
+
+# ---------------------------------------------------------------- F16 seen from checks it does not belong to
+def is_f16(m):
+    """`--help` after an item that interrupts the block of an adjacent subcommand gives the subcommand's error (F16, recorded
+    for C10 and C19): other properties' checks replay such lines too and leave the verdict to those two"""
+    d = m.get("def_full") or m.get("def") or {}
+    if not isinstance(d, dict):
+        return False
+    levels = [d] + [c["level"] for c in d.get("tail", {}).get("cmds", [])]
+    acmd = any(f.get("kind") == "adj" and f["head"]["kind"] == "cmd" for l in levels for f in l.get("named", []))
+    e, g = m.get("expect", {}), m.get("got", {})
+    return acmd and e.get("class") == "stdout" and e.get("kind") == "help" and g.get("class") == "stderr"
+
+
+def not_f16(m):
+    return not is_f16(m)
